@@ -45,7 +45,12 @@ class Frame:
         return int(f) if self.ints and f == int(f) else f
 
     def len(self, v):
-        return self._n(v / self.U * self.scale)
+        f = v / self.U * self.scale
+        if self.ints and f == int(f) and int(f) % 2 == 1 and 0 < f < 60000:
+            # every other whole-number size is handed over as an unsigned numpy integer (a size read from an image header or a table column):
+            # differences and negations of such values wrap around unless the package computes them in floating point
+            return np.uint16(f) if f > 200 or int(f) % 4 == 1 else np.uint8(f)
+        return self._n(f)
 
     def x(self, v):
         return self._n(v / self.U * self.scale + self.tx)
